@@ -50,6 +50,9 @@ func runC07(p *an.Prog, r *an.Run, tier string) {
 		}
 	}
 	r.Floor("settlers", len(settlers), 1)
+	// the credit consumed is booked against the account the balance was read from: wrappers of the balance store hand
+	// their account/node arguments through verbatim (shared with C01.writers)
+	checkLedgerWriters(p, r)
 	// what is paid is deposit + credit as read: every source of that balance is reported when it fails (shared with
 	// C03.balance-errors), and a refused or failed withdrawal leaves the balance as it was, which includes not mutating
 	// the big.Int digits a returned Balance shares with the store / deposit cache (shared with C10.no-shared-bigint)
